@@ -93,4 +93,12 @@ CHECKS = {
         text="Every case is executed on the real mcintegral / compute() and compared (1e-12, counts exact) with a scalar-loop reference written from the property text that reads only table columns and configuration; permutation invariance, threshold monotonicity, the 0.826 bound and input immutability are checked as consequences.",
         note="dark-sky astronomy stubbed in the isolated part only (C13 owns it); calculate_snr is used as a public function to turn the stored EFields column into trigger values",
     ),
+    "C13": dict(
+        engine="E1-lattice",
+        level="exploration",
+        design_ref="DESIGN.md §3 C13",
+        technique="bounded exhaustive enumeration: product of source direction x start date x duration x N x detector position x altitude x limb angle; every N in 1..256 for the time grid; dark-sky thresholds and the limb angle placed on the actual astronomical values of chosen instants (value +- delta) so that every truth assignment and both sides of every cut occur; independent vector path for the nadir angle, sun/moon altitudes and phase",
+        text="Every configuration is run through the real RegionGeomToO / ToOEvent; time grid, kept <=> occulted and below min(42 deg, limb limit), the explicit Earth-centre/detector/spot triangle, the full truth table of the dark-sky condition, element-wise evaluation at each event time and the cut's effect on both channels through the real mcintegral are checked.",
+        note="astropy supplies the astronomy on both sides (different transformation paths); either-side band of 5e-5 rad at the cuts",
+    ),
 }
